@@ -296,6 +296,25 @@ def _snap_skycoord(sc, path, S, memo, depth):
         S.notes.append(f'skycoord:{type(exc).__name__}')
 
 
+class _AttrBag:
+    """`self` of a display / copy / repr method of an object that is not one of the enumerated kinds (profile,
+    catalogue, Background2D, STDPSFGrid, ImageDepth ...): the array / table / model / NDData valued instance attributes
+    that exist when the snapshot is taken.  Re-read from the live object at every snapshot, so a re-bound attribute
+    is seen as well as an in-place write."""
+    __slots__ = ('obj',)
+
+    def __init__(self, obj):
+        self.obj = obj
+
+
+DISPLAY_METHODS = {'__repr__', '__str__', 'copy', 'deepcopy', '__copy__', '__deepcopy__', 'to_table', 'to_patches',
+                   'to_regions', 'make_cmap', 'as_artist', 'to_image'}
+
+
+def _is_display(name):
+    return name in DISPLAY_METHODS or name.startswith('plot') or name.startswith('imshow') or name.startswith('_repr_')
+
+
 def _photutils_types():
     """Resolved lazily (after photutils is imported)."""
     global _PT
@@ -367,6 +386,15 @@ def _snap(obj, path, S, memo, depth=0, kind_override=None):
                 S.leaves[(f'{path}[{k!r}]', kind_override or 'items')] = repr(v)
             else:
                 _snap(v, f'{path}[{k!r}]', S, memo, depth + 1, kind_override=kind_override)
+        return
+    if isinstance(obj, _AttrBag):
+        memo[oid] = obj
+        d = getattr(obj.obj, '__dict__', {})
+        S.leaves[(path, 'type')] = type(obj.obj).__name__
+        for k in sorted(d):
+            v = d[k]
+            if isinstance(v, (np.ndarray, T['Table'], T['Model'], T['NDData'])) and id(v) not in memo:
+                _snap(v, f'{path}.{k}', S, memo, depth + 1)
         return
     if isinstance(obj, T['Table']):
         memo[oid] = obj
@@ -746,6 +774,11 @@ def _outer(defn, kind, name, fn, args, kwargs, has_self):
                     else:
                         named.append(('self', self_obj))
                         STATS['self_snapshots'] += 1
+                elif _is_display(name) and not inspect.isclass(self_obj):
+                    # display / copy / repr methods: the object that owns the method is "passed to" the call
+                    named.append(('self', _AttrBag(self_obj)))
+                    STATS['self_snapshots'] += 1
+                    STATS['display_self_snapshots'] = STATS.get('display_self_snapshots', 0) + 1
             snaps = snapshot(named) if named else {}
             rec = (named, snaps, call_named, self_obj)
         except Exception as exc:  # noqa: BLE001
